@@ -26,7 +26,12 @@ type c18Cell struct {
 	Host   int  `json:"host"`
 	TLSNil bool `json:"tls_client_config_nil"` // Dialer.TLSClientConfig == nil (system roots), after an earlier wss dial to another host
 	Refuse int  `json:"proxy_refuses"`         // 0 no, 1 status 407, 2 status 407 without reason phrase, 3 status 204 (a 2xx that is not 200), 4 status 302
+	// HostHdr: the caller overrides the Host header (requestHeader["Host"] = other.example); the
+	// certificate must still be verified for the URL's host, the CONNECT target stays the URL's
+	HostHdr bool `json:"host_header_override,omitempty"`
 }
+
+const c18OtherHost = "other.example"
 
 var proxyNames = []string{"none", "http", "https", "socks5"}
 
@@ -86,6 +91,13 @@ func init() {
 							for h := 0; h < nh; h++ {
 								c.Host = h
 								c18Cells = append(c18Cells, c)
+								// the same cell with the caller overriding the Host header (cert 1 is then a
+								// certificate for exactly that other name)
+								if wss && refuse == 0 && creds == 0 && cert < 2 && h%2 == 0 {
+									c3 := c
+									c3.HostHdr = true
+									c18Cells = append(c18Cells, c3)
+								}
 								// the library itself does TLS to the backend: also with a nil TLSClientConfig
 								if wss && refuse == 0 && creds == 0 && cert < 2 && (proxy != 0 || hooks&4 == 0) && c.firstHopHook() != "" {
 									c2 := c
@@ -106,24 +118,24 @@ func init() {
 		ID:    "C18",
 		Level: "exploration",
 		Rule: "the configuration matrix {no proxy, http, https, socks5} x {ws, wss} x the 8 subsets of {NetDial, NetDialContext, NetDialTLSContext} x proxy credentials {none, user, user:password} x backend certificate {valid for the host, other host, untrusted CA} x URL host forms (name, name:port, IPv4, [IPv6], with and without explicit port; loopback forms where no custom dial function applies) x proxy refusal {no, 407, 407 without reason phrase, 204, 302}; plus the dial paths that take the proxy from the process environment {DefaultDialer, nil *Dialer, Proxy: http.ProxyFromEnvironment} x {ws, wss} x certificate x {explicit, default port}; " +
-			"in-process backends, HTTP(S) CONNECT proxy and SOCKS5 proxy on loopback record what they saw; thorough enumerates all cells, quick a fixed stride sample; distinct = the cell; non-trivial = a proxy or TLS is involved",
+			"in-process backends, HTTP(S) CONNECT proxy and SOCKS5 proxy on loopback record what they saw; both tiers enumerate all cells (thorough three times: the loopback ports and connection timing differ between repetitions); distinct = the cell; non-trivial = a proxy or TLS is involved",
 		Variants:   core.PlainOnly,
 		Exhaustive: false,
 		Cases: func(tier, variant string) int {
 			if tier == "thorough" {
-				return len(c18Cells) + len(c18EnvCells)
+				return 3*len(c18Cells) + len(c18EnvCells)
 			}
-			return 1100 + len(c18EnvCells)
+			return len(c18Cells) + len(c18EnvCells)
 		},
 		Run:          runC18,
-		Required:     []string{"dials", "connect_requests_checked", "tls_sessions_checked", "hook_logs_checked", "bad_certificates_refused", "dials_with_proxy_from_environment"},
+		Required:     []string{"dials", "connect_requests_checked", "tls_sessions_checked", "hook_logs_checked", "bad_certificates_refused", "dials_with_proxy_from_environment", "dials_with_host_header_override", "second_dials_after_a_refusal"},
 		CaseTimeoutS: 240,
 		MaxWorkers:   8,
 		Assumptions: []string{
 			"real TCP on loopback; logical host names are mapped to the loopback listeners by the recording dial hooks and by the proxies",
 			"default ports (80/443) are exercised through the recording hooks and the CONNECT target, never by binding privileged ports",
 			"HTTP_PROXY/HTTPS_PROXY are set once per worker process, before the first dial that consults the environment, to a process-wide CONNECT proxy (net/http caches them); the URL hosts of those cells are names only that proxy resolves",
-			"the thorough tier enumerates the matrix completely (evidence cells=all); quick takes every k-th cell, offset by the seed",
+			"both tiers enumerate the matrix completely; an earlier version of the quick tier took every k-th cell and thereby never reached the tail of the cell list (SOCKS5 x wss), found by the regression run over the seeded changes",
 		},
 	})
 }
@@ -133,21 +145,15 @@ type hookCall struct{ Name, Network, Addr string }
 func runC18(ctx *core.Ctx, out *core.Out) {
 	idx := ctx.Idx
 	// the tail of the case list: dial paths whose proxy comes from the process environment
-	if n := len(c18Cells); ctx.Thorough() && idx >= n {
+	n := len(c18Cells)
+	if ctx.Thorough() {
+		n *= 3
+	}
+	if idx >= n {
 		runC18Env(ctx, out, c18EnvCells[idx-n])
 		return
-	} else if !ctx.Thorough() && idx >= 1100 {
-		runC18Env(ctx, out, c18EnvCells[idx-1100])
-		return
 	}
-	if !ctx.Thorough() {
-		stride := len(c18Cells) / 1100
-		if stride < 1 {
-			stride = 1
-		}
-		idx = (ctx.Idx*stride + int(ctx.Seed)%stride) % len(c18Cells)
-	}
-	cell := c18Cells[idx]
+	cell := c18Cells[idx%len(c18Cells)]
 	pk := getPKI()
 	desc := map[string]interface{}{"cell": cell, "proxy_kind": proxyNames[cell.Proxy]}
 	fail := func(sig, what string) {
@@ -338,8 +344,15 @@ func runC18(ctx *core.Ctx, out *core.Out) {
 	}
 	target := scheme + "://" + urlHost + "/ws?x=1"
 	desc["url"] = target
-	out.Eval(core.J(cell), cell.Proxy != 0 || cell.WSS)
-	conn, _, derr := d.Dial(target, nil)
+	out.Eval(core.J(cell)+fmt.Sprint(idx/len(c18Cells)), cell.Proxy != 0 || cell.WSS)
+	var reqHdr http.Header
+	wantHostHdr := urlHost
+	if cell.HostHdr {
+		reqHdr = http.Header{"Host": {c18OtherHost}}
+		wantHostHdr = c18OtherHost
+		out.Count("dials_with_host_header_override", 1)
+	}
+	conn, _, derr := d.Dial(target, reqHdr)
 	out.Count("dials", 1)
 	if conn != nil {
 		defer conn.Close()
@@ -502,9 +515,34 @@ func runC18(ctx *core.Ctx, out *core.Out) {
 			return
 		}
 	}
-	if expSuccess && (len(bs.Hosts) != 1 || bs.Hosts[0] != urlHost) {
-		fail("host-header", fmt.Sprintf("backend saw Host %q, URL host is %q", bs.Hosts, urlHost))
+	if expSuccess && (len(bs.Hosts) != 1 || bs.Hosts[0] != wantHostHdr) {
+		fail("host-header", fmt.Sprintf("backend saw Host %q, expected %q (URL host %q)", bs.Hosts, wantHostHdr, urlHost))
 		return
+	}
+	// history: a refused dial with credentials, then the same Dialer and proxy URL again:
+	// the second CONNECT must carry the same Proxy-Authorization
+	if hp != nil && cell.Refuse > 0 && cell.Creds == 2 {
+		conn2, _, _ := d.Dial(target, reqHdr)
+		if conn2 != nil {
+			conn2.Close()
+		}
+		time.Sleep(5 * time.Millisecond)
+		hp.mu.Lock()
+		reqs := append([]connectReq(nil), hp.Reqs...)
+		hp.mu.Unlock()
+		out.Count("second_dials_after_a_refusal", 1)
+		wantAuth := "Basic " + base64.StdEncoding.EncodeToString([]byte("alice:s3cr:t p@ss"))
+		if len(reqs) != 2 || reqs[1].Method != "CONNECT" || reqs[1].Target != backendHostPort || len(reqs[1].Auth) != 1 || reqs[1].Auth[0] != wantAuth {
+			desc["proxy_requests"] = reqs
+			fail("second-dial-after-refusal", fmt.Sprintf("after a refused dial the same Dialer was used again: the proxy log now holds %d requests; the second must be CONNECT %q with Proxy-Authorization %q", len(reqs), backendHostPort, wantAuth))
+			return
+		}
+		if pu := desc["proxy_url"]; pu != nil {
+			if u, _ := d.Proxy(nil); u == nil || u.String() != pu.(string) {
+				fail("proxy-url-modified", fmt.Sprintf("the application's proxy URL was %s before the dials and is %v now", pu, u))
+				return
+			}
+		}
 	}
 	if ctx.Idx%47 == 0 {
 		out.Sample(desc)
